@@ -249,13 +249,12 @@ def check_addr_after_type(fields, where):
         return s[0] == 'Atom' and s[1][0] in ('UInt', 'Enum') and s[1][1] == 1
 
     def walk(seq, w):
+        """seq: (name, fspec) of consecutive fields of one object / one array item"""
         prev = None
         for n, s in seq:
             if s == ('Atom', ('AddrAfterType',)) and not (prev is not None and one_byte(prev)):
                 raise TranslationError(f'{w}.{n}: parse_address_preceded_by_type is not preceded by a one-byte field')
             if s[0] == 'Nested':
-                for f in s[2]:
-                    pass
                 walk_fields([_lift_a(f) for f in s[2]], f'{w}.{n}')
             prev = s
 
@@ -266,8 +265,8 @@ def check_addr_after_type(fields, where):
                 flat.append((f[1], f[2]))
             else:
                 walk(f[1], w)
-                flat.append((None, ('Arr',)))
-        walk([(n, s) for n, s in flat if n is not None or True], w)
+                flat.append(('<array>', ('Arr',)))      # an array group is not a one-byte field
+        walk(flat, w)
 
     walk_fields(fields, where)
 
@@ -313,11 +312,17 @@ def _check_overrides(hci, cls, kind):
         raise TranslationError(f'{cls.__name__}: defines __post_init__')
 
 
-def load():
-    """-> (hci module, [ClassInfo])  in a deterministic order."""
+FAILED: list = []      # (kind, code, class, message) of classes skipped by load(strict=False)
+
+
+def load(strict=True):
+    """-> (hci module, [ClassInfo])  in a deterministic order.  With strict=False a class
+    that cannot be translated is skipped and recorded in FAILED (used only to keep the
+    harness running for the other classes after the translator has already failed the check)."""
     from bumble import hci
     infos: list[ClassInfo] = []
     rps: dict[type, ClassInfo] = {}
+    FAILED.clear()
 
     def add_rp(rp):
         if rp in rps:
@@ -352,18 +357,24 @@ def load():
             name = cls.__name__
             if getattr(cls, attr, None) != code:
                 raise TranslationError(f'{name}: registered under {code:#x} but {attr}={getattr(cls, attr, None)!r}')
-            if name in CUSTOM_CLASSES:
-                if cls.fields:
-                    raise TranslationError(f'{name}: custom class now has a field list')
-                info = ClassInfo(kind, code, name, cls, [], custom=True)
-            else:
-                _check_overrides(hci, cls, kind)
-                info = ClassInfo(kind, code, name, cls, fields_of(hci, cls.fields, name))
-                check_addr_after_type(info.fields, name)
-            if kind == KIND_COMMAND and issubclass(cls, hci.HCI_SyncCommand):
-                if _owner(cls, 'parse_return_parameters') is not hci.HCI_SyncCommand:
-                    raise TranslationError(f'{name}: overrides parse_return_parameters')
-                info.ret_name = add_rp(cls.return_parameters_class).name
+            try:
+                if name in CUSTOM_CLASSES:
+                    if cls.fields:
+                        raise TranslationError(f'{name}: custom class now has a field list')
+                    info = ClassInfo(kind, code, name, cls, [], custom=True)
+                else:
+                    _check_overrides(hci, cls, kind)
+                    info = ClassInfo(kind, code, name, cls, fields_of(hci, cls.fields, name))
+                    check_addr_after_type(info.fields, name)
+                if kind == KIND_COMMAND and issubclass(cls, hci.HCI_SyncCommand):
+                    if _owner(cls, 'parse_return_parameters') is not hci.HCI_SyncCommand:
+                        raise TranslationError(f'{name}: overrides parse_return_parameters')
+                    info.ret_name = add_rp(cls.return_parameters_class).name
+            except TranslationError as e:
+                if strict:
+                    raise
+                FAILED.append((kind, code, cls, str(e)))
+                continue
             infos.append(info)
     infos.extend(rps.values())
     if hci.HCI_LE_META_EVENT in hci.HCI_Event.event_classes:
